@@ -17,6 +17,7 @@ RULE = ("segments of all four types and paths (open/closed, with arcs) x operati
         "on a curve with >= 2 distinct points; distinct by (curve, op) hash.")
 ASSUMPTIONS = ["Bezier tolerance: rounding bound 1024*eps*(|positions| under the map); arcs: 1e-7*size*cond(M) (2e-4 in the "
                "exactly-fitting window, cf. C04)", "default origins as documented: point(0.5), Arc.center, Path.point(0.5); scaled default 0j"]
+RULE += ' Also: Operands may have a past (queried, reversed twice, translated there and back); matrices include near-identity and integer-typed ones; arcs built with autoscale_radius=False; a non-uniformly scaled arc must be refused or right.'   # added after the seeded-change rounds (DESIGN.md section 10)
 CONFIGS = ['scipy']
 BUDGET = {'quick': 30000, 'thorough': 400000}
 REQUIRED = ['pre:queried', 'pre:reversed_twice', 'pre:transformed_before', 'op:translated', 'op:rotated', 'op:scaled', 'op:scaled_xy', 'op:transform', 'kind:A', 'kind:path', 'path:closed',
